@@ -6,7 +6,9 @@
 EXTENDS Integers, Sequences, FiniteSets, TLC, Json, IOUtils, SequencesExt, FiniteSetsExt
 
 CONSTANTS Mode, NFiles, Reorder,
-          Small     \* TRUE: the elements t and i always accompany s (a smaller family for three files)
+          Small,    \* TRUE: the elements t and i always accompany s (a smaller family for three files)
+          OldFile   \* 0, or the number of the file that has an older version (4.1.3): it cannot contain the element n, whose
+                    \* kind (CONTAINER-I-PDU) that version does not know; the other files may
 VARIABLE x
 
 Files == 1..NFiles
@@ -15,18 +17,23 @@ NE(S) == (SUBSET S) \ {{}}
 \* split: files of a, b (subsets of Files); of s, t, i (subsets of fa); of p (subset of fa); of u (subset of fb)
 \* (built constructively: every child's files are a non-empty subset of its parent's files, every file has some content)
 TI(fs, fa) == IF Small THEN {fs} ELSE NE(fa)
+NSets(fa) == IF OldFile = 0 THEN {{}} ELSE {{}} \cup NE(fa \ {OldFile})
 Splits == UNION {UNION {UNION {
-              {[a |-> fa, b |-> fb, s |-> fs, t |-> ft, i |-> fi, p |-> fp, u |-> fu] : ft \in TI(fs, fa), fi \in TI(fs, fa), fp \in NE(fa), fu \in NE(fb)} :
+              {[a |-> fa, b |-> fb, s |-> fs, t |-> ft, i |-> fi, p |-> fp, u |-> fu, n |-> fn] : ft \in TI(fs, fa), fi \in TI(fs, fa), fp \in NE(fa), fu \in NE(fb),
+                                                                                                   fn \in NSets(fa)} :
                  fs \in NE(fa)} : fb \in {y \in NE(Files) : fa \cup y = Files}} : fa \in NE(Files)}
 Good(sp) == TRUE
 Sig(n) == "<SYSTEM-SIGNAL><SHORT-NAME>" \o n \o "</SHORT-NAME></SYSTEM-SIGNAL>"
 ISig(n) == "<I-SIGNAL><SHORT-NAME>" \o n \o "</SHORT-NAME></I-SIGNAL>"
 Pkg(n, inner) == "<AR-PACKAGE><SHORT-NAME>" \o n \o "</SHORT-NAME>" \o inner \o "</AR-PACKAGE>"
-Hdr == "<?xml version=\"1.0\" encoding=\"utf-8\"?>\n<AUTOSAR xsi:schemaLocation=\"http://autosar.org/schema/r4.0 AUTOSAR_00050.xsd\" xmlns=\"http://autosar.org/schema/r4.0\" xmlns:xsi=\"http://www.w3.org/2001/XMLSchema-instance\">"
+Cip(n) == "<CONTAINER-I-PDU><SHORT-NAME>" \o n \o "</SHORT-NAME></CONTAINER-I-PDU>"
+HdrOf(f) == "<?xml version=\"1.0\" encoding=\"utf-8\"?>\n<AUTOSAR xsi:schemaLocation=\"http://autosar.org/schema/r4.0 " \o (IF f = OldFile THEN "AUTOSAR_4-1-3.xsd" ELSE "AUTOSAR_00050.xsd")
+            \o "\" xmlns=\"http://autosar.org/schema/r4.0\" xmlns:xsi=\"http://www.w3.org/2001/XMLSchema-instance\">"
 RECURSIVE Cat(_)
 Cat(sq) == IF sq = <<>> THEN "" ELSE Head(sq) \o Cat(Tail(sq))
 \* the elements of a's ELEMENTS that file f sees, in the file's own order (rev = TRUE: reversed)
-ElsA(sp, f, rev) == LET l == SelectSeq(<<[n |-> "s", x |-> Sig("s"), fs |-> sp.s], [n |-> "t", x |-> Sig("t"), fs |-> sp.t], [n |-> "i", x |-> ISig("i"), fs |-> sp.i]>>,
+ElsA(sp, f, rev) == LET l == SelectSeq(<<[n |-> "s", x |-> Sig("s"), fs |-> sp.s], [n |-> "t", x |-> Sig("t"), fs |-> sp.t], [n |-> "i", x |-> ISig("i"), fs |-> sp.i],
+                                         [n |-> "n", x |-> Cip("n"), fs |-> sp.n]>>,
                                        LAMBDA e : f \in e.fs) IN
                     IF rev THEN Reverse(l) ELSE l
 View(sp, f, rev) ==
@@ -36,17 +43,20 @@ View(sp, f, rev) ==
                          \o (IF f \in sp.p THEN "<AR-PACKAGES>" \o Pkg("p", "") \o "</AR-PACKAGES>" ELSE ""))
             ELSE ""
       pb == IF f \in sp.b THEN Pkg("b", IF f \in sp.u THEN "<ELEMENTS>" \o Sig("u") \o "</ELEMENTS>" ELSE "") ELSE ""
-  IN Hdr \o "<AR-PACKAGES>" \o (IF rev THEN pb \o pa ELSE pa \o pb) \o "</AR-PACKAGES></AUTOSAR>"
+  IN HdrOf(f) \o "<AR-PACKAGES>" \o (IF rev THEN pb \o pa ELSE pa \o pb) \o "</AR-PACKAGES></AUTOSAR>"
 \* expected: path -> files (as sorted sequences), for the identifiable elements
-Expected(sp) == <<[p |-> "/a", f |-> SetToSortSeq(sp.a, <)], [p |-> "/a/i", f |-> SetToSortSeq(sp.i, <)], [p |-> "/a/p", f |-> SetToSortSeq(sp.p, <)],
+ExpectedAll(sp) == <<[p |-> "/a", f |-> SetToSortSeq(sp.a, <)], [p |-> "/a/i", f |-> SetToSortSeq(sp.i, <)], [p |-> "/a/n", f |-> SetToSortSeq(sp.n, <)],
+                  [p |-> "/a/p", f |-> SetToSortSeq(sp.p, <)],
                   [p |-> "/a/s", f |-> SetToSortSeq(sp.s, <)], [p |-> "/a/t", f |-> SetToSortSeq(sp.t, <)],
                   [p |-> "/b", f |-> SetToSortSeq(sp.b, <)], [p |-> "/b/u", f |-> SetToSortSeq(sp.u, <)]>>
+Expected(sp) == SelectSeq(ExpectedAll(sp), LAMBDA e : e.f # <<>>)
 Perms(S) == {f \in [1..Cardinality(S) -> S] : \A i, j \in 1..Cardinality(S) : i # j => f[i] # f[j]}
 \* which files present their siblings in reversed order
 RevSets == IF Reorder THEN SUBSET Files ELSE {{}}
 Cases == {[sp |-> sp, rev |-> rv] : sp \in {s \in Splits : Good(s)}, rv \in RevSets}
 Line(c) == [id |-> [a |-> SetToSortSeq(c.sp.a, <), b |-> SetToSortSeq(c.sp.b, <), s |-> SetToSortSeq(c.sp.s, <), t |-> SetToSortSeq(c.sp.t, <),
-                    i |-> SetToSortSeq(c.sp.i, <), p |-> SetToSortSeq(c.sp.p, <), u |-> SetToSortSeq(c.sp.u, <), rev |-> SetToSortSeq(c.rev, <)],
+                    i |-> SetToSortSeq(c.sp.i, <), p |-> SetToSortSeq(c.sp.p, <), u |-> SetToSortSeq(c.sp.u, <), n |-> SetToSortSeq(c.sp.n, <), old |-> OldFile,
+                    rev |-> SetToSortSeq(c.rev, <)],
             views |-> [f \in Files |-> View(c.sp, f, f \in c.rev)],
             orders |-> SetToSeq(Perms(Files)), exp |-> Expected(c.sp)]
 
